@@ -50,7 +50,7 @@ CHECKS = {
  "C15": ("exploration", "differential oracle over canary node selection through the real EDS Reconcile, with node churn and a second Reconcile; distinctness monitor on every canary status written in simulated histories with heavy node churn",
    "9.6k (quick) / 96k (thorough) seeded node populations x replicas (int, percent) x selector x anti-affinity keys x previous lists; distinct, valid, stable, count max/min, error only when too few valid nodes, least-restarts preference, spreading.",
    T+"one open known finding (stale canary nodes) is listed in known_findings.json.", "4/C15"),
- "C16": ("exploration", "exhaustive product lattices through Default/IsDefaulted/Validate + seeded specs driven through all reconcilers; worker-process crash attribution; thorough tier adds Go native coverage-guided fuzzing of a byte-encoded strategy under the same oracles",
+ "C16": ("exploration", "exhaustive product lattices through Default/IsDefaulted/Validate + seeded specs driven through all reconcilers; worker-process crash attribution; both tiers replay the committed fuzz corpus (444 coverage-increasing inputs); thorough tier adds Go native coverage-guided fuzzing of a byte-encoded strategy under the same oracles",
    "127k lattice points (full product of the canary key fields and of the rolling-update fields) and 600 (quick) / 6000 (thorough) life-cycle scenarios (deploy, template change, canary, promotion) with hostile specs; any panic, non-idempotence, lost user value or accepted-but-must-reject spec is a violation.",
    T+"the fuzzing engine (thorough tier, 400000 executions) uses the Go fuzzer's own unseedable random source, so that part is not a function of VERIF_SEED; a failing input is stored in the replay file.", "4/C16"),
  "C17": ("exploration", "Go race detector (-race build, halt_on_error=0, report blocks counted and de-duplicated) + conservation-of-errors monitor with unique error ids + condition reflection on real syncs",
